@@ -113,6 +113,10 @@ func build() *scen {
 			pay("B0:s2:6", bB0, b0(2, 6))
 			pay("B0:s3:7,u-nobadge:s2:6", bB0, b0(3, 7), rdef{badge: -1, signer: 1, session: 2, cu: 6})
 			pay("B0:s1:4,plain:s50:100,B0:s2:6", bB0, b0(1, 4), rdef{badge: -1, signer: 0, session: 50, cu: plainCu}, b0(2, 6))
+			// several relays of the same badge in one tx: each fits in what is left of the allocation, together they do
+			// not (from an unused badge: 6+6; after 4 CU were used: 4+5)
+			pay("B0:s6:6,B0:s7:6", bB0, b0(6, 6), b0(7, 6))
+			pay("B0:s4:4,B0:s5:5", bB0, b0(4, 4), b0(5, 5))
 			pay("plain:s60:100", -1, rdef{badge: -1, signer: 0, session: 60, cu: plainCu})
 			pay("B1:s1:7", bB1, rdef{badge: bB1, signer: 1, epochIx: 1, session: 1, cu: 7})
 			pay("B1:s2:4", bB1, rdef{badge: bB1, signer: 1, epochIx: 1, session: 2, cu: 4})
